@@ -241,6 +241,12 @@ def jobs(tier, seed):
            Job("C12_bm_stored", src, [dict(name="BM callback owner stored into sandbox memory", fn=check_bm_stored, unwind=200)], native=False),
            Job("C12_bm_signature", src, [dict(name="BM registration and release use the same guest signature", fn=check_bm_signature, unwind=200)], native=False),
            Job("C12_bm_void", src, [dict(name="BM void callback", fn=check_bm_void, unwind=200)], native=False)]
+    # nested visit of a second sandbox that ends by an abort surfaced as an exception and caught inside the first
+    # sandbox's callback: the next entry point of the first sandbox still runs its own function with its own sandbox
+    from specs import C19
+    for nm, pre in (("noop", NOOP), ("dylib", DYLIB)):
+        out.append(Job("C12_%s_two_exc" % nm, pre + '#include "C19_two.inc"\n', [dict(name=nm + " two sandboxes, nested visit ends by a caught exception", fn=C19.check_two_tree, unwind=400)],
+                       native=False, flags=["-D_GLIBCXX_EXTERN_TEMPLATE=0"]))
     out.append(Job("C12_noop_nested", NOOP + '#include "C12_nested.inc"\n', [dict(name="noop nested call trees", fn=check_nested, unwind=400)]))
     out.append(Job("C12_noop_etls_nested", NOOP_ETLS + '#include "C12_nested.inc"\nRLBOX_NOOP_SANDBOX_STATIC_VARIABLES();\n',
                    [dict(name="noop (embedder TLS) nested call trees", fn=check_nested, unwind=400)], native=False))
